@@ -57,6 +57,11 @@ type (
 		Id    chunk.Id
 		MinTs int64
 		MaxTs int64
+		// HullPartial is true while MinTs..MaxTs do not cover all records of the chunk: the info was created by a
+		// write notification for a chunk that already had records (the index did not know the chunk, e.g. its
+		// files were lost), so the range covers the written records only. Until rebuildIndex() has scanned the
+		// chunk it is reported with an unlimited time range (see getRecordsInfo). Guarded by cindex.lock.
+		HullPartial bool `json:",omitempty"`
 
 		// the rwLock is used to access to the ckIndex and it guards
 		// the following fields - IdxRoot, lastRec, idxCorrupted.
@@ -149,13 +154,13 @@ func (ci *cindex) onWrite(src string, firstRec, lastRec uint32, rInfo RecordsInf
 	if !ok {
 		sc = make(sortedChunks, 1)
 		ci.journals[src] = sc
-		sc[0] = &chkInfo{Id: rInfo.Id, MaxTs: rInfo.MaxTs, MinTs: rInfo.MinTs}
+		sc[0] = &chkInfo{Id: rInfo.Id, MaxTs: rInfo.MaxTs, MinTs: rInfo.MinTs, HullPartial: firstRec > 0}
 		newChk = true
 	}
 
 	if sc[len(sc)-1].Id != rInfo.Id {
 		// seems like we have a new chunk
-		sc = append(sc, &chkInfo{Id: rInfo.Id, MaxTs: rInfo.MaxTs, MinTs: rInfo.MinTs})
+		sc = append(sc, &chkInfo{Id: rInfo.Id, MaxTs: rInfo.MaxTs, MinTs: rInfo.MinTs, HullPartial: firstRec > 0})
 		ci.journals[src] = sc
 		newChk = true
 	} else if ok {
@@ -428,6 +433,8 @@ func (ci *cindex) rebuildIndex(ctx context.Context, src string, chk chunk.Chunk,
 			if c == res {
 				found = true
 				res.update(rInfo)
+				// the scan has seen every record the chunk had before the index learnt about it
+				res.HullPartial = false
 				break
 			}
 		}
@@ -730,6 +737,14 @@ func (ci *cindex) loadDataFromFile() {
 		ci.logger.Warn("loadDataFromFile(): could not unmarshal data. err=", err)
 		return
 	}
+	for _, sc := range ci.journals {
+		for _, c := range sc {
+			if c.HullPartial {
+				// still waits for its rebuild (the request was lost with the process): writes must ask for it again
+				c.makeCorrupted()
+			}
+		}
+	}
 	ci.logger.Info("successfully read information about ", len(ci.journals), " journals from ", ci.dtFileName)
 }
 
@@ -825,6 +840,10 @@ func (sc sortedChunks) findChunkIdx(cid chunk.Id) int {
 }
 
 func (ci *chkInfo) getRecordsInfo() RecordsInfo {
+	if ci.HullPartial {
+		// the time range of the chunk is not known yet: nobody may skip the chunk by its range
+		return RecordsInfo{Id: ci.Id, MinTs: math.MinInt64, MaxTs: math.MaxInt64}
+	}
 	return RecordsInfo{Id: ci.Id, MinTs: ci.MinTs, MaxTs: ci.MaxTs}
 }
 
